@@ -35,6 +35,8 @@ class Comment(models.Model):
     post = models.ForeignKey(Post, on_delete=models.CASCADE, related_name="comments")
     writer = models.ForeignKey(Author, null=True, on_delete=models.CASCADE,
                                related_name="written")
+    reviewer = models.ForeignKey(Author, null=True, on_delete=models.CASCADE,
+                                 related_name="reviewed")
 
     class Meta:
         app_label = "simhost"
